@@ -23,6 +23,9 @@ BENIGN = {
         "same element as above, evaluated under the try by slide() before the head became actionable",
     ("_process_internal_events_without_default_matchers", "_get_reference_activated_flow_instance"):
         "evaluates, with the same empty context, the default expressions that create_flow_instance evaluated successfully when the reference instance was created",
+    ("_add_head_to_event_matching_structures", "get_event_name_from_element"):
+        "the DIRECT calls of the index callback (_flow_head_changed in add_new_flow_instance / the restart in _finish_flow) register a head at position 0, i.e. on the generated "
+        "`match StartFlow(flow_id=<literal>)`; every other activation of the callback goes through a store to `head.position`, decided by C10.a.position-stores",
 }
 
 
@@ -37,8 +40,10 @@ def run(ctx):
                     "e: library flows that handle ColangError escape the error text they interpolate (a handler that fails on its own error re-triggers itself)"]
     ctx.not_decided = ["termination within a bound depending on program size in general (no ranking argument in reach of this family); only the named guards are decided"]
     a_containment(ctx)
+    a_position_stores(ctx)
     b_api(ctx)
     c_restart_guards(ctx)
+    c_error_before_restart(ctx)
     d_event_cap(ctx)
     e_error_handler_flows(ctx)
     a_typed_stores(ctx)
@@ -125,11 +130,55 @@ def a_containment(ctx):
         ctx.note("C10.a: benign table entry %s -> %s no longer matches an uncovered edge" % k)
 
 
+def a_position_stores(ctx):
+    """Storing `head.position` runs the index-update callback, which evaluates the element at the new position when it is a `match` (its event name / reference).  A
+    faulty match statement (`match $undefined.Finished()`) therefore raises from the STORE.  Every store that can land on a user-written match statement must be inside the
+    per-flow try; stores to a label position or to the end of the flow cannot evaluate anything."""
+    t = ctx.tree.ast(SM)
+    fns = {f.name: f for f in functions(t)}
+    n = 0
+
+    def all_calls_contained(name, depth=0):
+        sites = [(g, c) for g in fns.values() for c in walk_no_nested(g) if isinstance(c, ast.Call) and isinstance(c.func, ast.Name) and c.func.id == name and g.name != name]
+        if not sites or depth > 2:
+            return False
+        return all(contained(c, g) is not None and not handler_reraises(contained(c, g)[1]) or all_calls_contained(g.name, depth + 1) for g, c in sites)
+    for fn in fns.values():
+        stores = [st for st in walk_no_nested(fn) if isinstance(st, (ast.Assign, ast.AugAssign)) and
+                  any(isinstance(tg, ast.Attribute) and tg.attr == "position" and "head" in src(tg.value) for tg in (st.targets if isinstance(st, ast.Assign) else [st.target]))]
+        if not stores:
+            continue
+        fn_covered = all_calls_contained(fn.name)
+        for st in stores:
+            n += 1
+            val = st.value
+            from ..source import inline_temporaries
+            vs = inline_temporaries(val, fn, st.lineno) if isinstance(st, ast.Assign) else src(val)
+            vs1 = re.sub(r"\s", "", vs)
+            harmless = (isinstance(st, ast.Assign) and ("element_labels[" in vs1 and "+" not in vs1 or re.match(r"^len\(.*\.elements\)$", vs1) or
+                                                         (isinstance(val, ast.Constant)) or re.match(r"^\w*head\.position$", vs1)))
+            cov = contained(st, fn)
+            ok = fn_covered or (cov is not None and not handler_reraises(cov[1])) or bool(harmless)
+            if ok:
+                continue
+            ctx.check("C10.a.position-stores", SM, fn.name, first_line(st, 60), False,
+                      "`%s` moves a head outside the per-flow try: the position setter updates the event-matching index and evaluates the element it lands on, so a faulty match "
+                      "statement (`match $undefined.Finished()`) raises out of run_to_completion in the middle of a round - unrelated flows already parked on their `send` are dropped" % first_line(st, 50),
+                      line=st.lineno)
+    ctx.check("C10.a.position-stores", SM, "<module>", "stores to head.position", True, "%d stores examined: each is inside the per-flow try (directly or through its only callers), or targets a label / the end of the flow" % n, line=1)
+    ctx.floor("C10.a.position-stores", SM, "stores to head.position", n, 10)
+
+
 def _handler_fails_only_flow(fn, tr, h):
     if handler_reraises(h):
         return False, "the handler re-raises"
     body = " ".join(src(s) for s in h.body)
-    if "ColangError" not in body or "_push_internal_event" not in body:
+    # the ColangError event is built in the handler and queued there or, bound to a variable, after the try (e.g. in front of the failed flow's restart)
+    built = [a for st in h.body for a in ast.walk(st) if isinstance(a, ast.Assign) and isinstance(a.value, ast.Call) and src(a.value.func) == "Event" and "ColangError" in src(a.value)
+             and isinstance(a.targets[0], ast.Name)]
+    pushed = any(isinstance(c, ast.Call) and src(c.func) in ("_push_internal_event", "_push_left_internal_event") and any(
+        isinstance(x, ast.Name) and x.id in {b.targets[0].id for b in built} for a_ in c.args for x in ast.walk(a_)) for c in walk_no_nested(fn))
+    if "ColangError" not in body or not (("_push_internal_event" in body) or pushed):
         return False, "the handler does not report a ColangError event"
     flags = [s for s in h.body if isinstance(s, ast.Assign) and isinstance(s.targets[0], ast.Name) and src(s.value) == "True"]
     if not flags:
@@ -190,7 +239,7 @@ def b_api(ctx):
             ok, why = True, "the handler builds Event(name='ColangError', ...) from type(e).__name__/str(e) and re-enters the loop with it"
             if handler_reraises(h):
                 ok, why = False, "the handler re-raises"
-            assigns = [s for s in h.body if isinstance(s, ast.Assign) and isinstance(s.value, ast.Call) and src(s.value.func) == "Event"]
+            assigns = [s for st in h.body for s in ast.walk(st) if isinstance(s, ast.Assign) and isinstance(s.value, ast.Call) and src(s.value.func) == "Event"]
             if ok and (not assigns or "ColangError" not in src(assigns[0])):
                 ok, why = False, "the handler does not produce a ColangError event"
             if ok:
@@ -210,6 +259,55 @@ def b_api(ctx):
                 if not loop:
                     ok, why = False, "the ColangError event is not processed (no enclosing `while %s is not None`)" % v
         ctx.check("C10.b.api", RT, qualname(fn), first_line(c), ok, why, line=c.lineno)
+        if cov and ok:
+            # the retry with the ColangError event must be bounded: if processing THAT event raises again, some branch of the handler ends the loop
+            tr, h = cov
+            v = None
+            for s_ in ast.walk(h):
+                if isinstance(s_, ast.Assign) and isinstance(s_.value, ast.Call) and src(s_.value.func) == "Event" and isinstance(s_.targets[0], ast.Name):
+                    v = s_.targets[0].id
+            ends = [s_ for st in h.body for s_ in ast.walk(st) if (isinstance(s_, ast.Assign) and isinstance(s_.targets[0], ast.Name) and s_.targets[0].id == v
+                                                                    and isinstance(s_.value, ast.Constant) and s_.value.value is None) or isinstance(s_, (ast.Break, ast.Return))]
+            guarded = [e for e in ends if any(isinstance(p_, ast.If) for p_ in _anc(e, h))]
+            okb = bool(guarded)
+            ctx.check("C10.b.api-bounded", RT, qualname(fn), "retry with the ColangError event", okb,
+                      "when the ColangError event itself cannot be processed the handler ends the retry loop" if okb else
+                      "every exception escaping run_to_completion is turned into a new ColangError event and fed back without bound (max_events is not consulted here): if processing the "
+                      "ColangError event raises again - e.g. a flow waits for `ColangError(<expression that cannot be evaluated>)` - process_events never returns", line=h.lineno)
+
+
+def c_error_before_restart(ctx):
+    """A failed flow that is activated is restarted by a StartFlow pushed to the FRONT of the internal queue.  If the ColangError of the failure is appended to the END, the
+    fresh instance is already listening when the error is processed: a flow that reacts to ColangError and fails itself receives the error of its own previous instance, fails
+    again, ... inside one run_to_completion call.  The error event has to be queued in front of the restart (after the abort, to the left)."""
+    t = ctx.tree.ast(SM)
+    n = 0
+    for fname in ("_advance_head_front", "run_to_completion"):
+        fn = find_function(t, fname)
+        if fn is None:
+            raise AnalysisError("%s not found" % fname, anchor=SM + "::" + fname)
+        for tr in [x for x in walk_no_nested(fn) if isinstance(x, ast.Try)]:
+            for h in tr.handlers:
+                built = [a for st in h.body for a in ast.walk(st) if isinstance(a, ast.Assign) and isinstance(a.value, ast.Call) and src(a.value.func) == "Event" and "ColangError" in src(a.value)]
+                if not built:
+                    continue
+                n += 1
+                tgt = built[0].targets[0]
+                var = tgt.id if isinstance(tgt, ast.Name) else (src(tgt.value) if isinstance(tgt, ast.Subscript) else src(tgt))
+                appended_in_handler = [c for st in h.body for c in ast.walk(st) if isinstance(c, ast.Call) and src(c.func) == "_push_internal_event" and var in src(c)]
+                lefts = [c for c in walk_no_nested(fn) if isinstance(c, ast.Call) and src(c.func) == "_push_left_internal_event" and var in src(c)]
+                after_abort = False
+                for c in lefts:
+                    # an _abort_flow call precedes the push in the same function (same or enclosing block)
+                    aborts = [a for a in walk_no_nested(fn) if isinstance(a, ast.Call) and src(a.func) == "_abort_flow" and a.lineno < c.lineno]
+                    after_abort = after_abort or bool(aborts)
+                ok = not appended_in_handler and after_abort
+                ctx.check("C10.c.error-before-restart", SM, fname, first_line(built[0], 60), ok,
+                          "the ColangError event is queued in front of the failed flow's restart (pushed left after _abort_flow)" if ok else
+                          "the ColangError event is appended to the end of the internal queue while _abort_flow pushes the restart of an activated flow to the front: the new instance of a flow "
+                          "that handles ColangError receives the error of its own predecessor, fails again and restarts - one event is processed for ever (library flow `warning of colang "
+                          "errors` with a NUL character in the error text)", line=built[0].lineno)
+    ctx.floor("C10.c.error-before-restart", SM, "handlers that build a ColangError event", n, 2)
 
 
 def c_restart_guards(ctx):
@@ -223,6 +321,25 @@ def c_restart_guards(ctx):
     for flag, what, kind in (("flow_finished", "finishes", "finish"), ("flow_aborted", "fails", "failure")):
         guards = [n for n in ast.walk(fn) if isinstance(n, ast.If) and flag in [x.id for x in ast.walk(n.test) if isinstance(x, ast.Name)] and ".activated" in src(n.test)]
         ok, msg = False, ("no guard for an activated instance that %s before it ever waited: it is restarted at once, %s again, ... and run_to_completion never returns" % (what, what))
+        # second accepted form: under the branch of the flag, `if <was starting> and flow_state.activated > 0 [and not ...new_instance_started]: ...new_instance_started = True`
+        # before the abort/finish call (the restart is what is suppressed, the instance still ends)
+        start_vars = {a.targets[0].id for a in ast.walk(fn) if isinstance(a, ast.Assign) and isinstance(a.targets[0], ast.Name) and "FlowStatus.STARTING" in src(a.value) and "==" in src(a.value)}
+        def _under_flag(n):
+            child = n
+            for p_ in _anc(n, fn):
+                if isinstance(p_, ast.If) and flag in [x.id for x in ast.walk(p_.test) if isinstance(x, ast.Name)] and any(child is b_ for b_ in p_.body):
+                    return True
+                child = p_
+            return False
+        for g in [n for n in ast.walk(fn) if isinstance(n, ast.If) and ".activated" in src(n.test) and _under_flag(n)]:
+            conj = g.test.values if isinstance(g.test, ast.BoolOp) and isinstance(g.test.op, ast.And) else [g.test]
+            was_starting = any(isinstance(c_, ast.Name) and c_.id in start_vars for c_ in conj)
+            suppresses = any(isinstance(s_, ast.Assign) and src(s_.targets[0]).endswith(".new_instance_started") and src(s_.value) == "True" for s_ in g.body)
+            extra = [c_ for c_ in conj if not (isinstance(c_, ast.Name) and c_.id in start_vars) and ".activated" not in src(c_) and "new_instance_started" not in src(c_)]
+            positive = any(re.sub(r"\s", "", src(c_)) in ("flow_state.activated>0", "flow_state.activated>=1", "flow_state.activated") for c_ in conj)
+            if was_starting and suppresses and not extra and positive:
+                ok, msg = True, ("an activated instance that %s before it reached its first waiting statement is ended without restart (`new_instance_started = True` before the call); "
+                                 "the guard holds for every activated instance" % what)
         for g in guards:
             starting = any(isinstance(p_, ast.If) and "FlowStatus.STARTING" in src(p_.test) and "==" in src(p_.test) for p_ in _anc(g, fn))
             resets = any(isinstance(s_, ast.Assign) and src(s_.targets[0]) == flag and src(s_.value) == "False" for s_ in g.body)
